@@ -396,7 +396,7 @@ def work(rep, args):
             cand_hists = rng.sample(cand_hists, max_cands)
         # 3. behaviours of the model with larger constants
         nsim = 300 if quick else 12000
-        sim_ops = 9
+        sim_ops = 10
         write_cfg(wd, "RD_sim.cfg", SIM, sim_ops, "{}", SIM_TAIL)
         sim = tlc.run(wd, "RD_run.tla", "RD_sim.cfg", workers=1, timeout=600 if quick else 1800,
                       simulate="num=%d" % nsim, depth=sim_ops + SIM["maxtime"] + 2, seed=seed + 1)
